@@ -187,18 +187,21 @@ def r3_errors_reach_watcher(ctx):
             errs = [l for l in lv if l.kind == "agg" and l.detail.get("variant") == "Err"]
             R.check(len(errs) >= 2, "C09.R3", "%s:reports-errors" % label, "the reported value can be each of the task's errors (%d Err origins)" % len(errs), "the value reported by %s has %d error origins" % (label, len(errs)), where(s))
     # transport results in the send path are never discarded
-    for pat, calls_pat, label in (
-        (HFM, r"TransportSenderT::send$|async_client::helpers::stop_subscription$", "handle_frontend_messages"),
-        (r"^jsonrpsee_core::client::async_client::helpers::stop_subscription::\{closure#0\}$", r"TransportSenderT::send$", "stop_subscription"),
-    ):
-        b = F.one(pat)
-        R.fn(b)
-        cs = [c for c in b.calls if re.search(calls_pat, c.callee or "") or re.search(calls_pat, c.name() or "")]
-        R.floor("C09.R3." + label, len(cs), 1 if label == "stop_subscription" else 5, "awaited transport operations in %s" % label)
-        from .common import awaited_error_leaves_function
-        for c in cs:
-            found, propagated = awaited_error_leaves_function(b, c)
-            R.check(propagated, "C09.R3", "%s:propagates@%d" % (label, sorted(x.bb for x in cs).index(c.bb)), "a transport error leaves the function as an error (`?` or by hand)", "a transport error in %s is discarded instead of propagated: the failed write is not treated as a connection failure, nothing reaches the watcher and pending calls only end by their timeout" % label, where(c))
+    from .common import awaited_error_leaves_function, frontend_family
+    hfm_, helpers_ = frontend_family(F)
+    wr = r"TransportSenderT::send$|async_client::helpers::stop_subscription$"
+    groups = [("handle_frontend_messages", [hfm_] + helpers_, wr + "|" + "|".join(re.escape(h.path[:-len("::{closure#0}")]) + "$" for h in helpers_) if helpers_ else wr),
+              ("stop_subscription", [F.one(r"^jsonrpsee_core::client::async_client::helpers::stop_subscription::\{closure#0\}$")], r"TransportSenderT::send$")]
+    for label, bodies, calls_pat in groups:
+        total = 0
+        for b in bodies:
+            R.fn(b)
+            cs = [c for c in b.calls if (re.search(calls_pat, c.callee or "") or re.search(calls_pat, c.name() or "")) and not re.search(r"\{closure#\d+\}$", c.name() or "")]
+            total += sum(1 for c in cs if re.search(wr, c.callee or "") or re.search(wr, c.name() or ""))
+            for c in cs:
+                found, propagated = awaited_error_leaves_function(b, c)
+                R.check(propagated, "C09.R3", "%s:propagates@%s%d" % (label, "" if b is bodies[0] else b.path.split("::")[-2] + ":", sorted(x.bb for x in cs).index(c.bb)), "a transport error leaves the function as an error (`?` or by hand)", "a transport error in %s is discarded instead of propagated: the failed write is not treated as a connection failure, nothing reaches the watcher and pending calls only end by their timeout" % label, where(c))
+        R.floor("C09.R3." + label, total, 1 if label == "stop_subscription" else 5, "awaited transport operations in %s" % label)
     stb = F.one(SEND_TASK)
     for c in stb.calls:
         if re.search(r"handle_frontend_messages$", c.name() or "") or re.search(r"TransportSenderT::send_ping$", c.callee or ""):
